@@ -108,6 +108,12 @@ def run(ctx):
             for k in POS:
                 calls.append(('mid', (s, n, k)))
                 calls.append(('replace', (s, n, k, 'é' if (n + k) % 2 else 'xy')))
+    # ---- replace with a new_text that is not text: blank, logicals, integers, integral and other floats
+    for s in S2[:12] + ['abcdef', 'aB é\U0001F600'] + LONG[:ctx.n(10, 100)]:
+        for n in (0, 1, 2, len(s), len(s) + 1, len(s) + 3):
+            for k in (-1, 0, 1, 2, len(s) + 1):
+                for t in NONTEXT:
+                    calls.append(('replace', (s, n, k, t)))
     # ---- find: every pattern up to length 2 in every string, every start
     for w in SM + LONG[:ctx.n(30, 300)]:
         pats = S2 if len(w) <= 4 else [w[i:i + k] for i in range(len(w)) for k in (1, 2, 3)][:12] + ['', 'zz']
@@ -203,6 +209,17 @@ def run(ctx):
                 ctx.divergence(case, i, m, 'Gen/text.v + Model/Text.v = pycel.lib.text via apply_meta')
         oracle(ctx, F, amp, f, a, i)
     text_part(ctx, F)
+    compiler_part(ctx)
+
+
+NONTEXT = [None, True, False, 0, 7, -1, 123456, 3.0, 12345.0, -2.0, 1e10, 0.5, 1.5, -2.5, 0.125]
+
+
+def nontext_scalar(v):
+    """blank, logical, int, or a float whose Excel rendering is beyond doubt (integral, or a short dyadic)"""
+    if v is None or isinstance(v, (bool, int)):
+        return True
+    return isinstance(v, float) and v == v and abs(v) < 1e15 and (v == int(v) or len(repr(v)) <= 8)
 
 
 def is_err(v):
@@ -256,6 +273,25 @@ def oracle(ctx, F, amp, f, a, i):
             want = F['left'](s, n - 1) + t + F['mid'](s, n + k, F['len_'](s))
         if r != want:
             ctx.violation(dict(case, oracle='replace-splice'), "REPLACE(s,n,k,t) <> LEFT(s,n-1) & t & MID(s,n+k,LEN(s))", impl=r, expected=want)
+    elif f == 'replace' and isinstance(a[0], str) and not is_err(a[0]) and nontext_scalar(a[3]) \
+            and all(isinstance(x, int) and not isinstance(x, bool) for x in a[1:3]):
+        # new_text that is not text (blank, logical, number): it is spliced in as Excel renders it — '' / TRUE /
+        # 3 for 3.0 — exactly as & does
+        s, n, k, t = a
+        if n < 1 or k < 0:
+            want = want_amp = ERR
+        else:
+            left, mid = F['left'](s, n - 1), F['mid'](s, n + k, F['len_'](s))
+            want = left + excel_render(t) + mid
+            want_amp = amp(amp(left, 'BitAnd', t), 'BitAnd', mid)
+        if r != want:
+            ctx.violation(dict(case, oracle='replace-splice-nontext'),
+                          "REPLACE(s,n,k,t) <> LEFT(s,n-1) & t & MID(s,n+k,LEN(s)) with t rendered the Excel way",
+                          impl=r, expected=want)
+        elif r != want_amp:
+            ctx.violation(dict(case, oracle='replace-splice-amp'),
+                          "REPLACE(s,n,k,t) <> LEFT(s,n-1) & t & MID(s,n+k,LEN(s)) computed with the & operator",
+                          impl=r, expected=want_amp)
     elif f == 'find' and texts and isinstance(a[0], str) and isinstance(a[1], str) \
             and (len(a) == 2 or (isinstance(a[2], (int, float)) and not isinstance(a[2], bool))):
         p, s = a[0], a[1]
@@ -308,6 +344,56 @@ def oracle(ctx, F, amp, f, a, i):
     elif f == 'exact' and texts and all(isinstance(x, str) for x in a):
         if r is not (a[0] == a[1]):
             ctx.violation(dict(case, oracle='exact'), "EXACT is not case-sensitive equality", impl=r, expected=a[0] == a[1])
+
+
+def compiler_part(ctx):
+    """REPLACE through ExcelCompiler on a small workbook: new_text given as a reference to an empty cell, to
+    constants (TRUE, 7, 2.5, text), to computed cells (=6/2 -> 3.0, =1=1 -> TRUE, =10/4) and as a literal
+    expression; column C holds =REPLACE($A$1,n,k,Bi), column D the identity's right-hand side written with
+    LEFT / & / MID / LEN.  Both must agree with each other and with the splice of the Excel rendering."""
+    import openpyxl
+    from pycel import ExcelCompiler
+    rng = ctx.rng
+    ctx.extra['rule'] += (
+        "; compiler leg: REPLACE($A$1,n,k,t) on workbooks compiled with ExcelCompiler, t a reference to an empty "
+        "cell / logical / integer / float constants / cells computed as =6/2, =1=1, =10/4 / literal expressions, "
+        "against LEFT & t & MID in the same workbook and the spliced Excel rendering")
+    srcs = [(None, ''), (True, 'TRUE'), (False, 'FALSE'), (7, '7'), (0, '0'), (2.5, '2.5'), ('=6/2', '3'),
+            ('=1=1', 'TRUE'), ('=10/4', '2.5'), ('=2*3', '6'), ('=-8/4', '-2'), ('xy', 'xy'), ('=1>2', 'FALSE')]
+    lits = [('TRUE', 'TRUE'), ('FALSE', 'FALSE'), ('3', '3'), ('6/2', '3'), ('2.5', '2.5'), ('"é"', 'é'),
+            ('1=1', 'TRUE'), ('-1', '-1'), ('B1', '')]
+    for w in range(ctx.n(10, 100)):
+        s = rand_string(ctx, 3, 8)
+        n, k = rng.randrange(1, len(s) + 3), rng.randrange(0, len(s) + 2)
+        wb = openpyxl.Workbook()
+        ws = wb.active
+        ws.title = 'S'
+        ws['A1'] = s
+        forms = {}
+        for i, (v, _) in enumerate(srcs, start=1):
+            if v is not None:
+                ws[f'B{i}'] = v
+            forms[i] = (f'=REPLACE($A$1,{n},{k},B{i})', f'=LEFT($A$1,{n}-1)&B{i}&MID($A$1,{n}+{k},LEN($A$1))')
+        for j, (e, _) in enumerate(lits, start=len(srcs) + 1):
+            forms[j] = (f'=REPLACE($A$1,{n},{k},{e})', f'=LEFT($A$1,{n}-1)&({e})&MID($A$1,{n}+{k},LEN($A$1))')
+        for i, (c, d) in forms.items():
+            ws[f'C{i}'], ws[f'D{i}'] = c, d
+        comp = ExcelCompiler(excel=wb)
+        renders = [r for _, r in srcs] + [r for _, r in lits]
+        for i, (c, d) in forms.items():
+            t_src = srcs[i - 1][0] if i <= len(srcs) else lits[i - 1 - len(srcs)][0]
+            case = dict(call='replace', via='ExcelCompiler', args=[s, n, k, t_src], formula=c)
+            ctx.count(('compiler-replace', s, n, k, repr(t_src)), kind='replace:compiler', sample=case)
+            got = run_impl(comp.evaluate, f'S!C{i}')
+            rhs = run_impl(comp.evaluate, f'S!D{i}')
+            want = ('ok', s[:n - 1] + renders[i - 1] + s[n - 1 + k:])
+            if got != want:
+                ctx.violation(dict(case, oracle='replace-splice-nontext'),
+                              "REPLACE(s,n,k,t) in a workbook is not s with k characters from n replaced by the Excel "
+                              "rendering of t", impl=got, expected=want)
+            elif got != rhs:
+                ctx.violation(dict(case, oracle='replace-splice-amp'),
+                              f"REPLACE(s,n,k,t) <> {d[1:]} in the same workbook", impl=got, expected=rhs)
 
 
 INT_PARTS = ['0', '#', '00', '000', '#,##0', '#,###', '#0', '0#', '##', '0,000', '#,#', ',0', '0,', '##,##', '']
